@@ -242,7 +242,9 @@ class FrameAnalysis(object):
             chain = " <- ".join("%s:%d" % (getattr(f, "name", "<lambda>"), ln) for f, ln in reversed(self.stack[-6:]))
             rec = (r, os.path.relpath(mod.path, REPO) if mod is not None else "?", getattr(node, "lineno", 0), "%s: %s" % (what, text[:140]), chain)
             if r.startswith("global:"):
-                self.global_writes.add(rec)
+                # `inside`: the object modified was taken OUT of module-level state (an element of a cache, say), as
+                # opposed to the module-level container itself receiving an entry
+                self.global_writes.add(rec + (v.site != "global-root",))
             else:
                 self.effects.append(rec)
 
@@ -315,7 +317,7 @@ class FrameAnalysis(object):
                     return AV(fn=("namedtuple", tuple(obj._fields), obj.__name__))
                 return AV(fn=("py", "%s.%s" % (getattr(obj, "__module__", "?"), getattr(obj, "__qualname__", name))))
             g = "global:%s.%s" % (mod.name, name)
-            return AV({g}, {g})
+            return AV({g}, {g}, site="global-root")
         import builtins
         if hasattr(builtins, name):
             return AV(fn=("py", name))
@@ -674,6 +676,10 @@ class FrameAnalysis(object):
             return AV()
         if short in DEEP_FRESH:
             return AV()
+        if short.startswith("<obj>"):
+            return AV()         # a method of a file / socket / other library object: effects outside the program's data only
+        if short in ("open", "io.open", "socket.socket", "codecs.open", "tempfile.NamedTemporaryFile", "random.Random", "threading.Lock"):
+            return AV(fn=("py", "<obj>"))
         if short in ("map", "filter", "six.moves.map", "functools.reduce", "sorted", "min", "max", "itertools.groupby", "itertools.starmap") and allargs:
             # higher-order: the function argument is applied to elements
             fnarg = kwargs.get("key") or (args[0] if short not in ("sorted", "min", "max") else None)
@@ -1005,7 +1011,7 @@ class FrameAnalysis(object):
         if isinstance(t, ast.Name):
             if t.id in sc.global_names:
                 g = "global:%s.%s" % (sc.mod.name, t.id)
-                self.global_writes.add((g, os.path.relpath(sc.mod.path, REPO), getattr(node, "lineno", 0), "assignment to a global name", ""))
+                self.global_writes.add((g, os.path.relpath(sc.mod.path, REPO), getattr(node, "lineno", 0), "assignment to a global name", "", False))
             sc.vars[t.id] = v
         elif isinstance(t, (ast.Tuple, ast.List)):
             for i, x in enumerate(t.elts):
